@@ -663,9 +663,17 @@ class RealSys:
         except Exception as e:  # rustworkx errors etc.
             raise Raised(f"{type(e).__name__}: {e}")
 
+    def _ginfo(self, f):
+        """indices the graph-level op needs, read before the call (None: cannot be read, the call raises too)"""
+        try:
+            self.ginfo = f()
+        except Exception:
+            self.ginfo = None
+
     def _apply(self, op):
         o = op["o"]
         D = self.ds.real
+        self.ginfo = {}
         if o == "fresh":
             self.h.append(Tree(self.grid))
             return [len(self.h) - 1]
@@ -673,10 +681,12 @@ class RealSys:
         t = self.h[h]
         if o == "create":
             kids = [self.clone_name(t, a) for a in op["kids"]]
+            self._ginfo(lambda: {"kids": [t._node_indices[k] for k in kids]})
             t.create_root_node(children=kids, data=[D[i] for i in op["dps"]])
             return [h]
         if o == "createAdd":
             kids = [self.clone_name(t, a) for a in op["kids"]]
+            self._ginfo(lambda: {"kids": [t._node_indices[k] for k in kids]})
             nn = t.create_root_node(children=kids)
             t.add_data_point_to_node(D[op["dp"]], nn)
             return [h]
@@ -697,15 +707,24 @@ class RealSys:
             n = self.resolve(t, op["root"])
             if n == t.outlier_node_name:
                 raise KeyError("subtree of the outlier node")
+            self._ginfo(lambda: {"root": None if n == t.root_node_name else t._node_indices[n]})
             self.h.append(t.get_subtree(n))
             return [h, len(self.h) - 1]
         if o == "rmSub":
-            t.remove_subtree(self.h[op["hs"]])
+            sb = self.h[op["hs"]]
+
+            def rm_info():
+                same = sb.copy() == t.copy()  # the branch `remove_subtree` takes (compared on copies: `==` creates `_data` keys)
+                return {"reinit": bool(same), "r": None if same else t._node_indices[sb.roots[0]]}
+
+            self._ginfo(rm_info)
+            t.remove_subtree(sb)
             return [h, op["hs"]]
         if o == "addSub":
             n = self.resolve(t, op["par"])
             if n == t.outlier_node_name:
                 raise KeyError("graft under the outlier node")
+            self._ginfo(lambda: {"p": t._node_indices[n], "sub_root": self.h[op["hs"]]._node_indices["root"]})
             t.add_subtree(self.h[op["hs"]], parent=None if n == t.root_node_name else n)
             return [h, op["hs"]]
         if o == "relabel":
@@ -1031,11 +1050,149 @@ def clear_caches():
             fn.cache_clear()
 
 
+# =========================================================================== graph-level correspondence
+class GraphSkip(Exception):
+    """the graph-level op cannot be reconstructed (reason in args[0])"""
+
+
+def _reach(snap, r):
+    seen, todo = [], [r]
+    while todo:
+        i = todo.pop()
+        if i in seen or i not in snap["nodes"]:
+            continue
+        seen.append(i)
+        todo.extend(snap["nodes"][i]["kids"])
+    return seen
+
+
+def _gkey(snap, i, names, depth=0):
+    nd = snap["nodes"].get(i)
+    if nd is None or depth > 64:
+        return ("?",)
+    return ((repr(nd["name"]) if names else ""), tuple(nd["dps"]), tuple(sorted(_gkey(snap, c, names, depth + 1) for c in nd["kids"])))
+
+
+def _iso(sa, ka, sb, kb, names, out, depth=0):
+    """pair the trees below the nodes `ka` of snapshot `sa` with those below `kb` of `sb` (children matched by
+    their recursive key: payload data, optionally names, shape); equal keys = isomorphic subtrees, any pairing
+    of those gives the same edge set.  False when the shapes differ."""
+    if depth > 64:
+        return False
+    xa = sorted(ka, key=lambda i: _gkey(sa, i, names))
+    xb = sorted(kb, key=lambda i: _gkey(sb, i, names))
+    if [_gkey(sa, i, names) for i in xa] != [_gkey(sb, i, names) for i in xb]:
+        return False
+    for a, b in zip(xa, xb):
+        out.append((a, b))
+        if not _iso(sa, sa["nodes"][a]["kids"], sb, sb["nodes"][b]["kids"], names, out, depth + 1):
+            return False
+    return True
+
+
+def graph_op(op, info, before, after, nh):
+    """the graph-level op (`lean/PhyModel/Model/Graph.lean`, `GOp`) that a store op amounts to, with the node indices
+    rustworkx handed out read off the real graphs (`before` / `after`: snapshots per handle)"""
+    o, h = op["o"], op.get("h")
+    if o == "fresh":
+        return {"o": "fresh"}, [nh]
+    if info is None:
+        raise GraphSkip("indices not readable before the call")
+    if o in ("addDp", "rmDp", "rmOut", "relabel", "update"):
+        return {"o": "same", "h": h}, [h]
+    if o in ("create", "createAdd"):
+        new = sorted(set(after[h]["nodes"]) - set(before[h]["nodes"]))
+        if len(new) != 1:
+            raise GraphSkip(f"create_root_node added the node indices {new}")
+        return {"o": "create", "h": h, "new": new[0], "kids": list(info["kids"])}, [h]
+    if o == "copy" or (o == "getSub" and info.get("root") is None):
+        return {"o": "copy", "h": h}, [h, nh]
+    if o == "getSub":
+        r = info["root"]
+        D = sorted(_reach(before[h], r))
+        rank = {d: k for k, d in enumerate(D)}  # `subgraph` numbers its nodes 0, 1, ... in increasing order of the old index
+        sb = after[nh]
+        pairs = []
+        if sb["root_idx"] is None or not _iso(before[h], [r], sb, sb["nodes"].get(sb["root_idx"], {"kids": []})["kids"], True, pairs):
+            raise GraphSkip("get_subtree: the new tree is not isomorphic to the subtree")
+        return {"o": "getSub", "h": h, "r": r, "m1": [[d, k] for d, k in rank.items()], "m2": [[rank[a], b] for a, b in pairs]}, [h, nh]
+    if o == "rmSub":
+        if info["reinit"]:
+            return {"o": "reinit", "h": h}, [h]
+        return {"o": "rmSub", "h": h, "r": info["r"]}, [h]
+    if o == "addSub":
+        hs = op["hs"]
+        sub = before[hs]
+        p = info["p"]
+        newset = set(after[h]["nodes"]) - set(before[h]["nodes"])
+        pairs = []
+        pk = [c for c in after[h]["nodes"].get(p, {"kids": []})["kids"] if c in newset]
+        if not _iso(sub, sub["nodes"][info["sub_root"]]["kids"], after[h], pk, False, pairs) or {b for _, b in pairs} != newset:
+            raise GraphSkip("add_subtree: the new nodes are not a copy of the grafted tree")
+        dummy = 1 + max(list(after[h]["nodes"]) + list(before[h]["nodes"]) + list(sub["nodes"]))  # removed again: any unused index
+        return {"o": "addSub", "h": h, "hs": hs, "p": p, "m": [[info["sub_root"], dummy]] + [[a, b] for a, b in pairs]}, [h]
+    if o == "dictRT":
+        return {"o": "fromDict", "h": h, "edges": [list(e) for e in before[h]["edges"]], "live": sorted(before[h]["nodeIdxRev"])}, [h]
+    raise GraphSkip(f"unknown op {o}")
+
+
+def _dup_names(snap):
+    names = [x["name"] for i, x in snap["nodes"].items() if i != snap["root_idx"]]
+    return len(set(names)) != len(names)
+
+
+def graph_check(ctx, case, gtrace, grammar):
+    """second pass: the graph-level history with the real indices injected is run on the digraph model and compared
+    after every op with the real graph: live set and edge multiset exactly, `isForestB` with the shape oracle"""
+    ops = [e["gop"] for e in gtrace if "gop" in e]
+    if not ops:
+        return
+    steps = ctx.ask({"op": "graph", "ops": ops})["steps"]
+    ctx.stat("graph_ops", len(ops))
+    for j, e in enumerate(gtrace):
+        k, o = e["k"], e["o"]
+        if "gop" not in e:
+            if e.get("fail"):
+                ctx.corr_fail(case, f"graph model: op {k} {o}: {e['skip']}", None)
+            else:
+                ctx.stat("graph_truncated_" + e["skip"].split(":")[0].replace(" ", "_")[:30])
+            return
+        if j >= len(steps) or steps[j] is None:
+            ctx.corr_fail(case, f"graph model: op {k} {o}: the model says rustworkx raises, it does not", e["gop"])
+            return
+        if grammar and not steps[j]["legal"]:
+            ctx.corr_fail(case, f"graph model: op {k} {o} of a sampler-grammar history is outside GLegal", e["gop"])
+            return
+        dumps = {d["h"]: d for d in steps[j]["dumps"]}
+        for h, (nodes, edges, shape_ok) in e["real"].items():
+            d = dumps.get(h)
+            if d is None:
+                ctx.corr_fail(case, f"graph model: op {k} {o}: no model graph for handle {h}", None)
+                return
+            mn, me = sorted(d["nodes"]), sorted(tuple(x) for x in d["edges"])
+            if mn != nodes or me != edges:
+                ctx.corr_fail(case, f"graph model: op {k} {o}: handle {h}: live set / edge set differ",
+                              {"model": {"nodes": mn, "edges": me}, "code": {"nodes": nodes, "edges": edges}, "gop": e["gop"]})
+                return
+            if d["forest"] != shape_ok:
+                ctx.corr_fail(case, f"graph model: op {k} {o}: handle {h}: isForestB {d['forest']} but the shape oracle says {shape_ok}", None)
+                return
+        ctx.stat("graph_op_" + e["gop"]["o"])
+
+
 # =========================================================================== one case
 def run_case(ctx, case, want):
     """Runs one history on the real code, compares with the model after every op and evaluates the
-    oracles `want` (subset of {"C06", "C07"}) when the history is in the samplers' grammar.
-    Returns a small summary dict."""
+    oracles `want` (subset of {"C06", "C07"}) when the history is in the samplers' grammar; then the
+    graph-level correspondence (`graph_check`).  Returns a small summary dict."""
+    gtrace = [] if (ctx.lean is not None and not case.get("no_model")) else None
+    summ = _run_case(ctx, case, want, gtrace)
+    if gtrace:
+        graph_check(ctx, case, gtrace, case.get("stream", "grammar") == "grammar")
+    return summ
+
+
+def _run_case(ctx, case, want, gtrace):
     clear_caches()
     ds = DataSet.from_json(case["data"])
     alpha = Fraction(case["alpha"])
@@ -1129,6 +1286,15 @@ def run_case(ctx, case, want):
                         ctx.corr_fail(case, f"op {k}: untouched handle {i} changed ({d})", None)
             new[i] = s
         changed = [i for i in new if i not in snaps or same_snapshot(snaps[i], new[i])]
+        if gtrace is not None and not (gtrace and "gop" not in gtrace[-1]):
+            try:
+                if not grammar and any(_dup_names(new[i]) for i in touched if i in new):
+                    raise GraphSkip("duplicate clone names: the graph model assumes the name a method looks up sits at one index")
+                gop, hs_ = graph_op(op, real.ginfo, snaps, new, len(real.h) - 1)
+                gtrace.append({"k": k, "o": op["o"], "gop": gop, "real": {
+                    i: (sorted(new[i]["nodes"]), sorted(new[i]["edges"]), not forest_of(new[i])[1]) for i in hs_ if i in new}})
+            except GraphSkip as e:
+                gtrace.append({"k": k, "o": op["o"], "skip": str(e), "fail": grammar or not str(e).startswith("duplicate")})
         snaps = new
         mdumps = {d["h"]: d["s"] for d in mstep["dumps"]} if mstep is not None else {}
         if mstep is not None and mstep["n"] != len(real.h):
